@@ -70,6 +70,11 @@ DESC = {
  "C17-4": "`write_magnetic_moments`: moments scattered instead of gathered through the species-grouping permutation",
  "C19-4": "`RandomDisplacements.run`: two generators made from the same seed (duplicated variates)",
  "C20-4": "`PhonopyQHA.__init__`: `eos` not forwarded to the static `BulkModulus` fit",
+ "C04-5": "`TrimmedCell._run`: atom-count guard rewritten as len(trimmed) == rint(len(cell)·det) (partial sublattices slip through)",
+ "C09-5": "`_get_rotations_keeping_shift`: transposed rotations handed to spglib for half-shifted meshes",
+ "C14-5": "`BandStructure`: group velocities appended before the band-connection order is updated",
+ "C15-5": "`PhonopyAtoms._set_magnetic_moments`: keeps a view of the caller's float64 array",
+ "C20-5": "`QHA._set_thermal_expansion`: `np.gradient` (uneven-grid three-point formula) instead of the documented central difference",
  "C02-5": "`sparse_to_dense_svecs`: address offsets subtract the first primitive atom's multiplicity for all",
  "C07-5": "`set_tensor_symmetry_PJ`: Cartesian rotation built as Lᵀ Rᵀ L⁻ᵀ (wrong on non-orthogonal cells)",
  "C08-5": "Wang charge sum (Python and C): mirror 3×3 block copied untransposed",
